@@ -289,7 +289,7 @@ def run(ctx):
     rng = ctx.rng
     progs = [(name, e, G.to_sx(e)) for name, e in corpus().items()]
     base = rng.getrandbits(48)
-    for i in range(ctx.n(26, 330)):
+    for i in range(ctx.n(26, 110)):
         prng = random.Random(base + i)
         gen = G.Gen(prng, p_err=prng.choice([0.0, 0.1, 0.25]), max_fan=3)
         for _ in range(30):
@@ -315,7 +315,7 @@ def run(ctx):
             if not any(c[0] is False for c in cfgs):
                 cfgs[0] = (False,) + cfgs[0][1:]
         else:
-            cfgs = rng.sample(all_cfg, 4)
+            cfgs = rng.sample(all_cfg, 3)
             if i % 10 == 0:
                 cfgs.append((rng.random() < 0.5, True, None, "process"))
         run_program(ctx, G, R, C12, name, e, sx, rep_e, {False: rep_f, True: rep_t}, cfgs, pending)
